@@ -250,3 +250,45 @@ def c17_d(ctx):
               'argsort(concatenated discrepancies)[:min n_samples]',
               'the ranking is not over the concatenation of all models\' discrepancies, cut at '
               'the smallest sample size', fn=cm, node=(cat or nmin or [cm.node])[0])
+
+
+@obligation('C17-e', 'T1 T2', 'every fit starts from empty per-fit state', floor=1,
+            necessary='models appended to those of an earlier fit are read by parameter index: '
+                      'the adjustment then uses the slope of another sample')
+def c17_e(ctx):
+    ra = ctx.cls('elfi.methods.post_processing:RegressionAdjustment')
+    fit = ctx.own_method(ra, 'fit')
+    adj = ctx.own_method(ra, 'adjust')
+    exf = ctx.ex(fit)
+    # attributes that fit() grows (append / extend / +=) must be re-initialised in fit() first
+    grown = {}
+    for c in ctx.calls(fit):
+        if isinstance(c.func, ast.Attribute) and c.func.attr in ('append', 'extend', 'insert') \
+                and isinstance(c.func.value, ast.Attribute) and \
+                isinstance(c.func.value.value, ast.Name) and c.func.value.value.id == 'self':
+            grown.setdefault(c.func.value.attr, []).append(c)
+    for s in own_nodes(fit.node):
+        if isinstance(s, ast.AugAssign) and isinstance(s.target, ast.Attribute) and \
+                isinstance(s.target.value, ast.Name) and s.target.value.id == 'self':
+            grown.setdefault(s.target.attr, []).append(s)
+    read_by_index = set()
+    for n in own_nodes(adj.node):
+        if isinstance(n, ast.Subscript) and isinstance(n.value, ast.Attribute) and \
+                isinstance(n.value.value, ast.Name) and n.value.value.id == 'self':
+            read_by_index.add(n.value.attr)
+    if not grown:
+        # nothing is grown in place: every per-fit attribute must then be assigned afresh
+        sts = [s for (s, t, k) in ctx.stores(fit, 'self.regression_models') if k == 'assign']
+        ctx.check(bool(sts), fit, 'models assigned afresh by fit', 'self.regression_models = ...',
+                  'fit does not set self.regression_models', fn=fit, node=fit.node)
+    for attr, sites in sorted(grown.items()):
+        resets = [s for (s, t, k) in ctx.stores(fit, 'self.' + attr) if k == 'assign' and
+                  exf.raw(s.value) in (('list', ()), ('call', ('global', 'builtins.list'), (), ()),
+                                       ('call', ('name', 'list'), (), ()))]
+        ok = bool(resets) and all(ctx.must_precede(fit, resets, x) for x in sites)
+        ctx.check(ok, fit, 'self.{} emptied before it is filled'.format(attr),
+                  'self.{} = [] at the start of fit'.format(attr),
+                  'fit() appends to self.{0} without emptying it first{1}: a second fit keeps the '
+                  'entries of the first'.format(
+                      attr, ' (adjust reads it by parameter index)' if attr in read_by_index
+                      else ''), fn=fit, node=sites[0])
